@@ -13,9 +13,9 @@ theorem leave_defs (F : RunIdFacts) (h : HSt) : (h.leave F).defs = h.defs := rfl
 theorem enter_defs (F : RunIdFacts) (h : HSt) (c : Bool) : (h.enter F c).defs = h.defs := rfl
 
 /-- the definitions after `useBody`: the used one has one more call, nothing else changes -/
-theorem useBody_defs (F : RunIdFacts) (h : HSt) (i x : Nat) :
-    (useBody F h i x).defs = h.defs ∨
-    ∃ d, h.defs[i]? = some d ∧ (useBody F h i x).defs = h.defs.set i { d with calls := d.calls + 1 } := by
+theorem useBody_defs (F : RunIdFacts) (h : HSt) (i x : Nat) (host : Bool) :
+    (useBody F h i x host).defs = h.defs ∨
+    ∃ d, h.defs[i]? = some d ∧ (useBody F h i x host).defs = h.defs.set i { d with calls := d.calls + 1 } := by
   unfold useBody
   cases hg : h.defs[i]? with
   | none => left; rfl
@@ -32,9 +32,9 @@ theorem use_defs (F : RunIdFacts) (h : HSt) (i : Nat) (via : Via) (x : Nat) :
     (stepH F h (.use i via x)).defs = h.defs ∨
     ∃ d, h.defs[i]? = some d ∧ (stepH F h (.use i via x)).defs = h.defs.set i { d with calls := d.calls + 1 } := by
   cases via with
-  | eval => simpa [stepH, leave_defs, enter_defs] using useBody_defs F (h.enter F false) i x
-  | evalCtx => simpa [stepH, leave_defs, enter_defs] using useBody_defs F (h.enter F true) i x
-  | host => simpa [stepH] using useBody_defs F h i x
+  | eval => simpa [stepH, leave_defs, enter_defs] using useBody_defs F (h.enter F false) i x false
+  | evalCtx => simpa [stepH, leave_defs, enter_defs] using useBody_defs F (h.enter F true) i x false
+  | host => simpa [stepH] using useBody_defs F h i x true
 
 theorem namedLate_step (F : RunIdFacts) (h : HSt) (ev : Ev) (hn : NamedLate h) : NamedLate (stepH F h ev) := by
   cases ev with
@@ -68,157 +68,119 @@ def erase (h : HSt) : HSt :=
   { id := 0, rootId := 0, idone := false, rdone := false,
     defs := h.defs.map (fun d => { d with binding := .callee }), results := h.results }
 
-/-! ### with the facts of the repaired interpreter: between two events the root frame carries the interpreter's id -/
+/-! ### with the facts of the repaired interpreter -/
 
-/-- **The id invariant of histories**: whenever no evaluation is running, the root frame carries the interpreter's
-    current id (`Execute` refreshes it when it starts and, deferred, when it returns — a cancelled `Execute`
-    included), and `interp.done` is an open channel (`stop()` replaces the one it closes) -/
-def Synced (h : HSt) : Prop := h.rootId = h.id ∧ h.idone = false
+/-- **The invariant of histories**: `interp.done` is an open channel whenever no `stop()` is running (`stop()` replaces
+    the one it closes; nothing else touches it) -/
+def Open (h : HSt) : Prop := h.idone = false
 
-theorem useBody_ids (F : RunIdFacts) (h : HSt) (i x : Nat) :
-    (useBody F h i x).id = h.id ∧ (useBody F h i x).rootId = h.rootId ∧ (useBody F h i x).idone = h.idone ∧
-    (useBody F h i x).rdone = h.rdone := by
+theorem useBody_ids (F : RunIdFacts) (h : HSt) (i x : Nat) (host : Bool) :
+    (useBody F h i x host).id = h.id ∧ (useBody F h i x host).rootId = h.rootId ∧ (useBody F h i x host).idone = h.idone ∧
+    (useBody F h i x host).rdone = h.rdone := by
   unfold useBody
   cases h.defs[i]? with
   | none => exact ⟨rfl, rfl, rfl, rfl⟩
   | some d => simp only []; split <;> (try split) <;> exact ⟨rfl, rfl, rfl, rfl⟩
 
-theorem fact_rar : Expected.C10.facts.execRefreshAtReturn = true := rfl
+theorem fact_fresh : Expected.C10.facts.ctxFreshDone = false := rfl
 theorem fact_ref : Expected.C10.facts.execRefresh = true := rfl
-theorem fact_fresh : Expected.C10.facts.ctxFreshDone = true := rfl
 
-/-- the ids and done channels after an evaluation of a call that completes -/
-theorem use_eval_fields (h : HSt) (c : Bool) (i x : Nat) :
-    ((useBody Expected.C10.facts (h.enter Expected.C10.facts c) i x).leave Expected.C10.facts).id = h.id ∧
-    ((useBody Expected.C10.facts (h.enter Expected.C10.facts c) i x).leave Expected.C10.facts).rootId = h.id ∧
-    ((useBody Expected.C10.facts (h.enter Expected.C10.facts c) i x).leave Expected.C10.facts).idone = (if c then false else h.idone) ∧
-    ((useBody Expected.C10.facts (h.enter Expected.C10.facts c) i x).leave Expected.C10.facts).rdone = (if c then false else h.idone) := by
-  obtain ⟨e1, _, e3, e4⟩ := useBody_ids Expected.C10.facts (h.enter Expected.C10.facts c) i x
-  refine ⟨?_, ?_, ?_, ?_⟩
-  · show (useBody Expected.C10.facts (h.enter Expected.C10.facts c) i x).id = h.id
-    rw [e1]; rfl
-  · show (if Expected.C10.facts.execRefreshAtReturn = true then (useBody Expected.C10.facts (h.enter Expected.C10.facts c) i x).id
-        else (useBody Expected.C10.facts (h.enter Expected.C10.facts c) i x).rootId) = h.id
-    rw [fact_rar, if_pos rfl, e1]; rfl
-  · show (useBody Expected.C10.facts (h.enter Expected.C10.facts c) i x).idone = _
-    rw [e3]; cases c <;> simp [HSt.enter, fact_fresh]
-  · show (useBody Expected.C10.facts (h.enter Expected.C10.facts c) i x).rdone = _
-    rw [e4]; cases c <;> simp [HSt.enter, fact_fresh]
-
-theorem synced_step (h : HSt) (ev : Ev) (hs : Synced h) : Synced (stepH Expected.C10.facts h ev) := by
-  obtain ⟨hs1, hs2⟩ := hs
+theorem open_step (h : HSt) (ev : Ev) (hs : Open h) : Open (stepH Expected.C10.facts h ev) := by
+  unfold Open at hs ⊢
   cases ev with
-  | define k a b blk => simp [Synced, stepH, HSt.enter, HSt.refresh, HSt.leave, Expected.C10.facts, Expected.C09.facts, hs2]
+  | define k a b blk => simp [stepH, HSt.enter, HSt.refresh, HSt.leave, fact_fresh, hs]
   | use i via x =>
     cases via with
     | eval =>
-      obtain ⟨f1, f2, f3, _⟩ := use_eval_fields h false i x
-      exact ⟨by simp only [stepH]; rw [f1, f2], by simp only [stepH]; rw [f3]; simpa using hs2⟩
+      have := useBody_ids Expected.C10.facts (h.enter Expected.C10.facts false) i x false
+      simp only [stepH]
+      show (useBody Expected.C10.facts (h.enter Expected.C10.facts false) i x).idone = false
+      rw [this.2.2.1]; simp [HSt.enter, hs]
     | evalCtx =>
-      obtain ⟨f1, f2, f3, _⟩ := use_eval_fields h true i x
-      exact ⟨by simp only [stepH]; rw [f1, f2], by simp only [stepH]; rw [f3]; rfl⟩
+      have := useBody_ids Expected.C10.facts (h.enter Expected.C10.facts true) i x false
+      simp only [stepH]
+      show (useBody Expected.C10.facts (h.enter Expected.C10.facts true) i x).idone = false
+      rw [this.2.2.1]; simp [HSt.enter, fact_fresh, hs]
     | host =>
-      have := useBody_ids Expected.C10.facts h i x
-      simp only [Synced, stepH, this.1, this.2.1, this.2.2.1]
-      exact ⟨hs1, hs2⟩
-  | cancelled c =>
-    cases c <;> simp [Synced, stepH, HSt.enter, HSt.stop, HSt.refresh, HSt.leave, Expected.C10.facts, Expected.C09.facts]
-
-/-- which done channel the root frame holds after an event (while `interp.done` is open): an evaluation that
-    completes leaves an open one, a host call leaves it alone, a cancelled evaluation leaves the channel `stop()`
-    closed — unless `stop()` ran before its `Execute` started -/
-theorem rdone_after (h : HSt) (ev : Ev) (hs : Synced h) :
-    (stepH Expected.C10.facts h ev).rdone =
-      match ev with
-      | .define _ _ _ _ => false
-      | .use _ .host _ => h.rdone
-      | .use _ _ _ => false
-      | .cancelled .expiredBefore => false
-      | .cancelled _ => true := by
-  obtain ⟨_, hs2⟩ := hs
-  cases ev with
-  | define k a b blk => simp [stepH, HSt.enter, HSt.refresh, HSt.leave, hs2]
-  | use i via x =>
-    cases via with
-    | eval => simp only [stepH]; rw [(use_eval_fields h false i x).2.2.2]; simpa using hs2
-    | evalCtx => simp only [stepH]; rw [(use_eval_fields h true i x).2.2.2]; rfl
-    | host =>
-      have := useBody_ids Expected.C10.facts h i x
-      simp [stepH, this.2.2.2]
+      have := useBody_ids Expected.C10.facts h i x true
+      simp only [stepH, this.2.2.1]; exact hs
   | cancelled c =>
     cases c <;> simp [stepH, HSt.enter, HSt.stop, HSt.refresh, HSt.leave, Expected.C10.facts, Expected.C09.facts]
 
 /-- the site of a binding made by `bindingOf` is never the site of declared functions -/
-def FvBound (h : HSt) : Prop := ∀ d ∈ h.defs, ∀ c, d.binding ≠ .fixed .call c
+def FvBound (h : HSt) : Prop := ∀ d ∈ h.defs, ∀ s c, d.binding = .fixed s c → s.kind ≠ .call
 
 theorem fvBound_step (F : RunIdFacts) (h : HSt) (ev : Ev) (hn : FvBound h) : FvBound (stepH F h ev) := by
   cases ev with
   | define k a b blk =>
-    intro d hd c
+    intro d hd s c
     simp only [stepH, HSt.enter, HSt.refresh, HSt.leave, List.mem_append, List.mem_cons, List.not_mem_nil, or_false] at hd
     rcases hd with hd | hd
-    · exact hn d hd c
+    · exact hn d hd s c
     · subst hd
-      cases k <;> simp only [bindingOf] <;> (try split) <;> simp
+      cases k <;> simp only [bindingOf] <;> (try split) <;> intro hb <;> first | (cases hb; decide) | cases hb
   | use i via x =>
-    intro d hd c
+    intro d hd s c
     rcases use_defs F h i via x with he | ⟨d0, hg, he⟩
-    · rw [he] at hd; exact hn d hd c
+    · rw [he] at hd; exact hn d hd s c
     · rw [he] at hd
       rcases List.mem_or_eq_of_mem_set hd with hd | hd
-      · exact hn d hd c
+      · exact hn d hd s c
       · subst hd
-        exact hn d0 (List.mem_of_getElem? hg) c
+        exact hn d0 (List.mem_of_getElem? hg) s c
   | cancelled c =>
-    intro d hd c'
-    cases c <;> simp only [stepH, HSt.enter, HSt.stop, HSt.refresh, HSt.leave] at hd <;> exact hn d hd c'
+    intro d hd s c'
+    cases c <;> simp only [stepH, HSt.enter, HSt.stop, HSt.refresh, HSt.leave] at hd <;> exact hn d hd s c'
 
-/-- when the root frame is in step with the interpreter EVERY definition gets a live frame, however it is bound: the
-    frame of a named function takes the id of the (root) frame that calls it, the frame of a closure, of a method
-    value and of a function handed to the host takes the root frame's id (`newCallFrame`) -/
-theorem synced_alive (h : HSt) (d : Def) (hs : h.rootId = h.id) (hb' : ∀ c, d.binding ≠ .fixed .call c) :
-    alive Expected.C10.facts h d = true := by
+/-- a direct call by the host gets a live frame for EVERY definition, whatever the id of the root frame: the frame
+    takes the interpreter's current id (`newCallFrame`; the epoch of a definition of a history is never cancelled) -/
+theorem host_alive (h : HSt) (d : Def) (hb' : ∀ s c, d.binding = .fixed s c → s.kind ≠ .call) :
+    alive Expected.C10.facts h d true = true := by
+  cases hb : d.binding with
+  | callee => simp [alive, useFrameId, hb, guardOk, newId, Expected.C10.facts, Expected.C09.facts]
+  | root => simp [alive, useFrameId, hb, guardOk, newId, Expected.C10.facts, Expected.C09.facts]
+  | fixed s c =>
+    obtain ⟨k, e, l⟩ := s
+    cases k with
+    | call => exact absurd rfl (hb' _ c hb)
+    | _ => simp [alive, useFrameId, hb, guardOk, newId, RunIdFacts.site, Expected.C10.facts, Expected.C09.facts]
+
+/-- a call made by an evaluation gets a live frame for every definition once `Execute` has refreshed the root id -/
+theorem eval_alive (h : HSt) (d : Def) (hs : h.rootId = h.id) (hb' : ∀ s c, d.binding = .fixed s c → s.kind ≠ .call) :
+    alive Expected.C10.facts h d false = true := by
   cases hb : d.binding with
   | callee => simp [alive, useFrameId, hb, guardOk, newId, Expected.C10.facts, Expected.C09.facts, hs]
-  | root => simp [alive, useFrameId, hb, guardOk, newId, Expected.C10.facts, Expected.C09.facts, hs]
+  | root => simp [alive, useFrameId, hb, guardOk, newId, Expected.C10.facts, Expected.C09.facts]
   | fixed s c =>
-    cases s with
-    | call => exact absurd hb (hb' c)
-    | _ => simp [alive, useFrameId, hb, guardOk, newId, RunIdFacts.site, Expected.C10.facts, Expected.C09.facts, hs]
+    obtain ⟨k, e, l⟩ := s
+    cases k with
+    | call => exact absurd rfl (hb' _ c hb)
+    | _ => simp [alive, useFrameId, hb, guardOk, newId, RunIdFacts.site, Expected.C10.facts, Expected.C09.facts]
 
-/-- a package imported between two events is initialised (and would be even without the deferred refresh: `importSrc`
-    refreshes the root id itself, 2667a11) -/
+/-- a package imported at any point is initialised: `importSrc` refreshes the root id itself (begin) -/
 theorem import_runs (h : HSt) : importRuns Expected.C10.facts h = true := by
   simp [importRuns, guardOk, Expected.C10.facts, Expected.C09.facts]
 
 theorem erase_leave (F : RunIdFacts) (h : HSt) : erase (h.leave F) = erase h := rfl
 theorem erase_enter (F : RunIdFacts) (h : HSt) (c : Bool) : erase (h.enter F c) = erase h := rfl
+theorem erase_stop (F : RunIdFacts) (h : HSt) (c : Bool) : erase (h.stop F c) = erase h := rfl
 
-/-- the domain, one event at a time (a decidable predicate of the state the event meets): the host does not call a
-    function value whose body blocks on a channel while the root frame holds a closed done channel (F10-3) -/
-def okEv (h : HSt) : Ev → Bool
-  | .use i .host _ => !(h.rdone && (match h.defs[i]? with | some d => d.blk | none => false))
-  | _ => true
-
-/-- a use whose frame is live and whose blocking operations are not cancelled is the use of the specification -/
-theorem useBody_spec (h : HSt) (i x : Nat) (via : Via) (hs : h.rootId = h.id) (hf : FvBound h)
-    (hok : h.rdone = false ∨ ∀ d, h.defs[i]? = some d → d.blk = false) :
-    erase (useBody Expected.C10.facts h i x) = stepSpec (erase h) (.use i via x) := by
+/-- a use whose frame is live and whose done channel is open is the use of the specification -/
+theorem useBody_spec (h : HSt) (i x : Nat) (via : Via) (host : Bool)
+    (ha : ∀ d, h.defs[i]? = some d → alive Expected.C10.facts h d host = true)
+    (hc : bodyDoneClosed Expected.C10.facts h host = false) :
+    erase (useBody Expected.C10.facts h i x host) = stepSpec (erase h) (.use i via x) := by
   unfold useBody
   cases hg : h.defs[i]? with
   | none => simp [stepSpec, erase, hg]
   | some d0 =>
-    have hb : (d0.blk && h.rdone) = false := by
-      rcases hok with h1 | h1
-      · simp [h1]
-      · simp [h1 d0 hg]
-    simp only [synced_alive h d0 hs (hf d0 (List.mem_of_getElem? hg)), if_true, hb]
+    simp only [ha d0 hg, if_true, hc, Bool.and_false]
     simp [stepSpec, erase, hg, List.map_set, value]
 
-/-- one event of the real history is one event of the specification, for every event inside the domain -/
-theorem full_step (h : HSt) (ev : Ev) (hs : Synced h) (hf : FvBound h) (hok : okEv h ev = true) :
+/-- one event of the real history is one event of the specification, for EVERY event -/
+theorem full_step (h : HSt) (ev : Ev) (hs : Open h) (hf : FvBound h) :
     erase (stepH Expected.C10.facts h ev) = stepSpec (erase h) ev := by
-  obtain ⟨hs1, hs2⟩ := hs
+  unfold Open at hs
   cases ev with
   | define k a b blk =>
     cases k <;> simp [stepH, stepSpec, erase, HSt.enter, HSt.refresh, HSt.leave, import_runs]
@@ -227,95 +189,89 @@ theorem full_step (h : HSt) (ev : Ev) (hs : Synced h) (hf : FvBound h) (hok : ok
     | eval =>
       simp only [stepH]
       rw [erase_leave, ← erase_enter Expected.C10.facts h false]
-      exact useBody_spec _ i x .eval (by simp [HSt.enter, HSt.refresh, Expected.C10.facts, Expected.C09.facts]) hf
-        (Or.inl (by simp [HSt.enter, hs2]))
+      refine useBody_spec _ i x .eval false (fun d hd => eval_alive _ d (by simp [HSt.enter, HSt.refresh, fact_ref]) ?_) ?_
+      · exact hf d (List.mem_of_getElem? (by simpa [enter_defs] using hd))
+      · simp [bodyDoneClosed, HSt.enter, hs]
     | evalCtx =>
       simp only [stepH]
       rw [erase_leave, ← erase_enter Expected.C10.facts h true]
-      exact useBody_spec _ i x .evalCtx (by simp [HSt.enter, HSt.refresh, Expected.C10.facts, Expected.C09.facts]) hf
-        (Or.inl (by simp [HSt.enter, Expected.C10.facts, Expected.C09.facts]))
+      refine useBody_spec _ i x .evalCtx false (fun d hd => eval_alive _ d (by simp [HSt.enter, HSt.refresh, fact_ref]) ?_) ?_
+      · exact hf d (List.mem_of_getElem? (by simpa [enter_defs] using hd))
+      · simp [bodyDoneClosed, HSt.enter, fact_fresh, hs]
     | host =>
       simp only [stepH]
-      refine useBody_spec h i x .host hs1 hf ?_
-      simp only [okEv, Bool.not_eq_true', Bool.and_eq_false_iff] at hok
-      rcases hok with h1 | h1
-      · exact Or.inl h1
-      · refine Or.inr (fun d hd => ?_)
-        simpa [hd] using h1
+      refine useBody_spec h i x .host true (fun d hd => host_alive h d (hf d (List.mem_of_getElem? hd))) ?_
+      simp [bodyDoneClosed, Expected.C10.facts, Expected.C09.facts, hs]
   | cancelled c =>
     cases c <;> simp [stepH, stepSpec, erase, HSt.enter, HSt.stop, HSt.refresh, HSt.leave]
 
-/-- the domain of a whole history, from a state -/
-def DomFrom (F : RunIdFacts) (h : HSt) : List Ev → Bool
-  | [] => true
-  | e :: es => okEv h e && DomFrom F (stepH F h e) es
-
-theorem full_run (evs : List Ev) (h : HSt) (hs : Synced h) (hf : FvBound h) (hd : DomFrom Expected.C10.facts h evs = true) :
+theorem full_run (evs : List Ev) (h : HSt) (hs : Open h) (hf : FvBound h) :
     erase (runHist Expected.C10.facts h evs) = runSpec (erase h) evs := by
   induction evs generalizing h with
   | nil => rfl
   | cons e es ih =>
-    simp only [DomFrom, Bool.and_eq_true] at hd
     simp only [runHist, runSpec, List.foldl_cons]
-    rw [← full_step h e hs hf hd.1]
-    exact ih _ (synced_step h e hs) (fvBound_step _ h e hf) hd.2
+    rw [← full_step h e hs hf]
+    exact ih _ (open_step h e hs) (fvBound_step _ h e hf)
 
-theorem synced_run (evs : List Ev) (h : HSt) (hs : Synced h) : Synced (runHist Expected.C10.facts h evs) := by
+theorem open_run (evs : List Ev) (h : HSt) (hs : Open h) : Open (runHist Expected.C10.facts h evs) := by
   induction evs generalizing h with
   | nil => exact hs
-  | cons e es ih => exact ih _ (synced_step h e hs)
+  | cons e es ih => exact ih _ (open_step h e hs)
 
 theorem fvBound_run (F : RunIdFacts) (evs : List Ev) (h : HSt) (hs : FvBound h) : FvBound (runHist F h evs) := by
   induction evs generalizing h with
   | nil => exact hs
   | cons e es ih => exact ih _ (fvBound_step F h e hs)
 
-/-- histories in which no body blocks on a channel are inside the domain -/
-def noBlk : List Ev → Bool
-  | [] => true
-  | .define _ _ _ blk :: es => !blk && noBlk es
-  | _ :: es => noBlk es
+/-! ### histories with the windows made visible (`XEv`) -/
 
-theorem noBlk_dom (F : RunIdFacts) (evs : List Ev) (h : HSt) (hn : noBlk evs = true) (hb : ∀ d ∈ h.defs, d.blk = false) :
-    DomFrom F h evs = true := by
-  induction evs generalizing h with
+theorem settle_props (h : HSt) (held : Bool) (hs : Open h) (hf : FvBound h) :
+    Open (settle Expected.C10.facts h held) ∧ FvBound (settle Expected.C10.facts h held) ∧
+    erase (settle Expected.C10.facts h held) = erase h := by
+  unfold settle; split
+  · exact ⟨hs, hf, rfl⟩
+  · exact ⟨hs, hf, rfl⟩
+
+/-- one event of an extended history is one event of the specification (a held evaluation, a late `stop()`, a `stop()`
+    without `Execute` change nothing the specification sees, and leave `interp.done` open) -/
+theorem full_stepX (s : HSt × Bool) (e : XEv) (hs : Open s.1) (hf : FvBound s.1) :
+    Open (stepX Expected.C10.facts s e).1 ∧ FvBound (stepX Expected.C10.facts s e).1 ∧
+    erase (stepX Expected.C10.facts s e).1 = (match e with | .ev ev => stepSpec (erase s.1) ev | _ => erase s.1) := by
+  cases e with
+  | ev ev =>
+    have h1 := open_step s.1 ev hs
+    have h2 := fvBound_step Expected.C10.facts s.1 ev hf
+    have h3 := settle_props _ s.2 h1 h2
+    exact ⟨h3.1, h3.2.1, by simp only [stepX]; rw [h3.2.2]; exact full_step s.1 ev hs hf⟩
+  | hold =>
+    have h3 := settle_props s.1 s.2 hs hf
+    refine ⟨?_, ?_, ?_⟩
+    · simp [stepX, Open, HSt.stoppedNotLeft, HSt.stop, HSt.enter, Expected.C10.facts, Expected.C09.facts]
+    · exact h3.2.1
+    · simp only [stepX, HSt.stoppedNotLeft]; rw [erase_stop, erase_enter]; exact h3.2.2
+  | lateStop =>
+    have h3 := settle_props s.1 s.2 hs hf
+    refine ⟨?_, ?_, ?_⟩
+    · simp [stepX, Open, HSt.stop, HSt.enter, HSt.leave, Expected.C10.facts, Expected.C09.facts]
+    · exact h3.2.1
+    · simp only [stepX]; rw [erase_stop, erase_leave, erase_enter]; exact h3.2.2
+  | stopOnly =>
+    have h3 := settle_props s.1 s.2 hs hf
+    refine ⟨?_, ?_, ?_⟩
+    · simp [stepX, Open, HSt.stop, Expected.C10.facts, Expected.C09.facts]
+    · exact h3.2.1
+    · simp only [stepX]; rw [erase_stop]; exact h3.2.2
+
+theorem full_runX (evs : List XEv) (s : HSt × Bool) (hs : Open s.1) (hf : FvBound s.1) :
+    erase (evs.foldl (stepX Expected.C10.facts) s).1 = runSpec (erase s.1) (XEv.plain evs) := by
+  induction evs generalizing s with
   | nil => rfl
   | cons e es ih =>
-    have hb' : ∀ d ∈ (stepH F h e).defs, d.blk = false := by
-      cases e with
-      | define k a b blk =>
-        simp only [noBlk, Bool.and_eq_true, Bool.not_eq_true'] at hn
-        intro d hd
-        simp only [stepH, HSt.enter, HSt.refresh, HSt.leave, List.mem_append, List.mem_cons, List.not_mem_nil, or_false] at hd
-        rcases hd with hd | hd
-        · exact hb d hd
-        · subst hd; exact hn.1
-      | use i via x =>
-        intro d hd
-        rcases use_defs F h i via x with he | ⟨d0, hg, he⟩
-        · rw [he] at hd; exact hb d hd
-        · rw [he] at hd
-          rcases List.mem_or_eq_of_mem_set hd with hd | hd
-          · exact hb d hd
-          · subst hd; exact hb d0 (List.mem_of_getElem? hg)
-      | cancelled c =>
-        intro d hd
-        cases c <;> simp only [stepH, HSt.enter, HSt.stop, HSt.refresh, HSt.leave] at hd <;> exact hb d hd
-    have hn' : noBlk es = true := by
-      cases e with
-      | define k a b blk => simp only [noBlk, Bool.and_eq_true] at hn; exact hn.2
-      | use i via x => simpa [noBlk] using hn
-      | cancelled c => simpa [noBlk] using hn
-    have hok : okEv h e = true := by
-      cases e with
-      | use i via x =>
-        cases via <;> simp only [okEv]
-        cases hg : h.defs[i]? with
-        | none => simp
-        | some d => simp [hb d (List.mem_of_getElem? hg)]
-      | _ => rfl
-    simp only [DomFrom, hok, Bool.true_and]
-    exact ih _ hn' hb'
+    have h := full_stepX s e hs hf
+    simp only [List.foldl_cons]
+    rw [ih _ h.1 h.2.1, h.2.2]
+    cases e <;> simp [XEv.plain, runSpec]
 
 /-- the ids only grow -/
 theorem id_monotone (F : RunIdFacts) (h : HSt) (ev : Ev) : h.id ≤ (stepH F h ev).id := by
@@ -323,7 +279,7 @@ theorem id_monotone (F : RunIdFacts) (h : HSt) (ev : Ev) : h.id ≤ (stepH F h e
   | define k a b blk => simp [stepH, HSt.enter, HSt.refresh, HSt.leave]
   | use i via x =>
     have : (stepH F h (.use i via x)).id = h.id := by
-      cases via <;> simp [stepH, HSt.leave, (useBody_ids F _ i x).1, HSt.enter, HSt.refresh]
+      cases via <;> simp [stepH, HSt.leave, (useBody_ids F _ i x _).1, HSt.enter, HSt.refresh]
     omega
   | cancelled c =>
     cases c <;> simp only [stepH, HSt.enter, HSt.stop, HSt.refresh, HSt.leave] <;> split <;> simp
